@@ -42,7 +42,8 @@ def gen_keys(rng, n=None, algs=None, heavy=0.12):
         uids = rng.sample(UIDS, rng.choice([1, 2, 2, 3]))
         if rng.random() < 0.3:
             uids.append({'image': True})
-        keys['k%d' % i] = {'alg': alg, 'uids': uids, 'subkeys': subkeys,
+        keys['k%d' % i] = {'alg': alg, 'uids': uids, 'subkeys': subkeys, 'revoked': rng.random() < 0.2,
+                           'revoked_subkeys': [0] if subkeys and rng.random() < 0.2 else [],
                            'usage': rng.choice(['CS', 'CS', 'CS', 'C']) if subkeys and subkeys[0]['usage'] == 'S' else 'CS',
                            'created_us': 1_400_000_000_000_000 + rng.choice([0, 1, 86400 * 400]) * 1_000_000}
     return keys
@@ -147,7 +148,18 @@ class SigWorld(object):
         self.ctx = ctx
         self.keys = {}
         for name in sorted(keys_cfg):
-            self.keys[name] = world.build_key(keys_cfg[name], label + name)
+            k = world.build_key(keys_cfg[name], label + name)
+            # key states a verifier meets in the wild: revoked primaries / subkeys (advisory in PGPy)
+            try:
+                subs = list(k.subkeys.values())
+                for i in keys_cfg[name].get('revoked_subkeys', []):
+                    if i < len(subs):
+                        subs[i] |= k.revoke(subs[i])
+                if keys_cfg[name].get('revoked'):
+                    k |= k.revoke(k)
+            except Exception as e:      # pragma: no cover
+                ctx.event('keystate', name, type(e).__name__)
+            self.keys[name] = k
         self.cfg = keys_cfg
 
     # ------------------------------------------------------------------
